@@ -980,6 +980,7 @@ func c14GenFlags(c *Ctx, i int) *c14Case {
 		{"bad-remap", []string{"--remap", "[", "main.knut"}, tc.Cmd == "balance"},
 		{"bad-map", []string{"-m", Pick(r, []string{"-1,x", "1:-2,x", "x", "1:2:3", "", ",", "1,(", "99999999999999999999", "-0"}), "main.knut"}, tc.Cmd == "balance" || tc.Cmd == "weights"},
 		{"huge-map", []string{"-m", Pick(r, []string{"2147483647", "1:2147483647", "9223372036854775807,."}), "main.knut"}, tc.Cmd == "balance" || tc.Cmd == "weights"},
+		{"huge-map-suffix", []string{"-m", Pick(r, []string{"9223372036854775807:1,.", "9223372036854775806:2,.", "4611686018427387904:4611686018427387904,.", "1:9223372036854775807,.", "9223372036854775807:9223372036854775807"}), "main.knut"}, tc.Cmd == "balance" || tc.Cmd == "weights"},
 		{"two-intervals", []string{"--days", "--weeks", "main.knut"}, windowed},
 		{"empty-valuation", []string{"-v", "", "main.knut"}, windowed || tc.Cmd == "transcode"},
 		{"bad-valuation", []string{"-v", Pick(r, []string{"bad commodity!", "CH F", "-", "\"", "Ünit", strings.Repeat("C", 5000)}), "main.knut"}, windowed || tc.Cmd == "transcode"},
